@@ -411,14 +411,27 @@ pub fn gen_val(rng: &mut Prng, ty: &Ty, size: usize, fd_counter: &mut u64) -> Va
             _ => unreachable!(),
         },
         Ty::Array(e) => {
-            let n = if size == 0 { 0 } else { rng.below(4) };
-            Val::Arr((0..n).map(|_| gen_val(rng, e, size.saturating_sub(1), fd_counter)).collect())
+            let (n, inner) = crate::typed::container_len(rng, size);
+            Val::Arr((0..n).map(|_| gen_val(rng, e, inner, fd_counter)).collect())
         }
         Ty::Dict(k, v) => {
-            let n = if size == 0 { 0 } else { rng.below(4) };
+            let (n, inner) = crate::typed::container_len(rng, size);
+            let size = inner + 1;
             let mut es: Vec<Val> = Vec::new();
-            for _ in 0..n {
-                let key = gen_val(rng, &Ty::Base(*k), 0, fd_counter);
+            for i in 0..n {
+                let mut key = gen_val(rng, &Ty::Base(*k), 0, fd_counter);
+                if n > 4 {
+                    // long dicts: make the keys distinct
+                    key = match (&key, *k) {
+                        (Val::Num(_), 'b') => key,
+                        (Val::Num(_), 'y') => Val::Num(i % 256),
+                        (Val::Num(_), 'h') => key,
+                        (Val::Num(_), _) => Val::Num(i),
+                        (Val::Str(_), 's') => Val::Str(format!("k{}", i).into_bytes()),
+                        (Val::Str(_), 'o') => Val::Str(format!("/k{}", i).into_bytes()),
+                        _ => key,
+                    };
+                }
                 if es.iter().any(|e| matches!(e, Val::Struct(kv) if kv[0] == key)) {
                     continue;
                 }
